@@ -5,7 +5,7 @@ use super::common::*;
 use super::slave_h::{stub_as_core_duration, stub_mul_f64};
 use super::super::state::PortState;
 use super::super::*;
-use crate::datastructures::common::{ClockIdentity, Tlv, TlvSet, TlvType};
+use crate::datastructures::common::{ClockIdentity, Tlv, TlvSet, TlvSetBuilder, TlvType};
 use crate::datastructures::messages::Message;
 use crate::verif_gen::*;
 
@@ -65,6 +65,7 @@ impl ForwardedTLVProvider for AnyProvider {
 #[kani::unwind(34)]
 #[kani::stub(PortActionIterator::from, PortActionIterator::verif_recording_from)]
 #[kani::stub(Message::serialize, Message::verif_recording_serialize)]
+#[kani::stub(TlvSetBuilder::add, TlvSetBuilder::verif_contract_add)]
 #[kani::stub(crate::time::Interval::as_core_duration, stub_as_core_duration)]
 fn c15_send_announce_with_any_provider() {
     let mut inst0 = any_instance_state(2);
